@@ -242,7 +242,7 @@ def restart_race_history():
     @st.composite
     def strat(draw):
         cfg = {'backend': draw(st.sampled_from(['disk', 'disk', 'cloud', 'redis', 'shelf'])),
-               'backoff': [draw(st.sampled_from([5, 0]))], 'backoff_forever': True}
+               'backoff': [draw(st.sampled_from([5, 0]))], 'backoff_forever': True, 'late': draw(st.booleans())}
         k = draw(st.integers(2, 3))
         acts = []
         for _ in range(k):
@@ -406,7 +406,7 @@ def double_report_history():
     def strat(draw):
         cfg = {'backend': draw(st.sampled_from(['dict', 'disk', 'shelf', 'redis', 'cloud'])), 'backoff': [draw(st.sampled_from([5, 8]))],
                'backoff_forever': True, 'announce': True, 'store_pool': draw(st.sampled_from([None, None, 3])),
-               'relay_pool': draw(st.sampled_from([None, None, 2]))}
+               'relay_pool': draw(st.sampled_from([None, None, 2])), 'late': draw(st.booleans())}
         n = draw(st.integers(1, 3))
         per = draw(st.lists(st.sampled_from(['ok', 'temp', 'perm', 'temp']), min_size=n, max_size=n))
         outcome = draw(st.sampled_from([T, T, {'shape': 'map', 'per': per, 'replies': [0]}]))
@@ -422,5 +422,30 @@ def double_report_history():
         acts.append(['release_kind', 'get', 0])
         tail = draw(st.lists(st.one_of(st.integers(0, 3).map(lambda i: ['release', i, OK]), st.just(['storage']), st.just(['answer', OK]),
                                        st.just(['tick'])), max_size=6))
+        return cfg, acts + tail
+    return strat()
+
+
+def enqueue_vs_load_history():
+    """enqueue() racing the start-up load of a restarted queue: the new message is in the store (and listed by load()) before
+    enqueue() has claimed it."""
+    T = {'shape': 'raise_t', 'replies': [0]}
+    OK = {'shape': 'none'}
+
+    @st.composite
+    def strat(draw):
+        cfg = {'backend': draw(st.sampled_from(['dict', 'disk', 'shelf', 'redis'])), 'backoff': [draw(st.sampled_from([5, 8]))],
+               'backoff_forever': True, 'late': True, 'announce': draw(st.booleans()),
+               'store_pool': draw(st.sampled_from([None, None, 3]))}
+        acts = [['enqueue', {'n': 1, 'sender': True, 'body': ''}], ['release_kind', 'write', 0], ['release_kind', 'write_done', 0],
+                ['answer', T], ['storage'], ['restart'],
+                ['enqueue', {'n': draw(st.integers(1, 2)), 'sender': True, 'body': ''}],
+                ['release_kind', 'write', 0],               # the new message is stored; enqueue() is still waiting for the answer
+                ['release_kind', 'load', 0]]                # the start-up scan lists it and schedules it (due now)
+        tail = draw(st.lists(st.one_of(st.just(['release_kind', 'write_done', 0]), st.just(['release_kind', 'get', 0]),
+                                       st.just(['release_kind', 'get_done', 0]), st.just(['release_kind', 'relay', 0, T]),
+                                       st.just(['release_kind', 'relay', 0, OK]), st.just(['release_kind', 'increment_attempts', 0]),
+                                       st.just(['release_kind', 'set_timestamp', 0]), st.just(['storage']), st.just(['tick'])),
+                             min_size=4, max_size=14))
         return cfg, acts + tail
     return strat()
